@@ -173,10 +173,11 @@ def build(rng, kind, nin=1, pos=0, ht=1, mutate=None, annex=None, enc=None, wn=3
         isk = rng.randrange(1, R.N)
         q, par, p, _ = taproot_output(isk, [])
         spk = b"\x51\x20" + q
-    elif kind in ("p2tr-script", "p2tr-csa", "p2tr-codesep", "p2tr-cs-unexec", "p2tr-weight", "p2tr-keytype"):
+    elif kind in ("p2tr-script", "p2tr-csa", "p2tr-codesep", "p2tr-cs-unexec", "p2tr-weight", "p2tr-keytype", "p2tr-path"):
         isk = rng.randrange(1, R.N)
         lk = [K.new_x() for _ in range(3)]
-        if kind == "p2tr-cs-unexec": leaves = [b"\x00\x63\xab\x68" + push(lk[0][1]) + b"\xac"]
+        if kind == "p2tr-path": leaves = [push(lk[0][1]) + b"\xac"] + [bytes([0x51 + (j % 16), 0x51 + (j // 16) % 16, 0x87]) for j in range(wn)]     # control path of length wn
+        elif kind == "p2tr-cs-unexec": leaves = [b"\x00\x63\xab\x68" + push(lk[0][1]) + b"\xac"]
         elif kind == "p2tr-weight": leaves = [(b"\x76" + push(lk[0][1]) + b"\xad") * wn + push(lk[0][1]) + b"\xac", b"\x51"]
         elif kind == "p2tr-keytype": leaves = [push(lk[0][1] + b"\x01") + b"\xac"]          # 33-byte key: unknown key type, succeeds unless discouraged
         elif kind == "p2tr-script": leaves = [push(lk[0][1]) + b"\xac", b"\x51", push(lk[1][1]) + b"\xad\x51"]
@@ -196,6 +197,10 @@ def build(rng, kind, nin=1, pos=0, ht=1, mutate=None, annex=None, enc=None, wn=3
         else: vin.append((bytes(rng.randrange(256) for _ in range(32)), rng.randrange(3), b"", 0xffffffff))
     nout = rng.choice([1, 2, 3]) if (ht & 0x1f) != 3 or mutate != "single-oob" else max(0, pos)
     tx = Tx(rng.choice([1, 2]), vin, [(rng.randrange(1, amount), bytes([0x51, 0x20]) + bytes(rng.randrange(256) for _ in range(32))) for _ in range(nout)], rng.choice([0, 0, 500000]))
+    # the other inputs of the transaction may be segwit inputs (their witnesses are not signed by this input)
+    for i in range(nin):
+        if i != pos and rng.random() < 0.5:
+            tx.wit[i] = [bytes(rng.randrange(256) for _ in range(rng.randrange(0, 4))) for _ in range(rng.randrange(1, 3))]
     amt_for_sig = amount + (1 if mutate == "amount" else 0)
     def ecdsa(sk, digest, hashtype):
         r_, s_ = R.parse_der_lax(R.ecdsa_sign(digest, sk))
@@ -268,6 +273,13 @@ def build(rng, kind, nin=1, pos=0, ht=1, mutate=None, annex=None, enc=None, wn=3
         control = bytes([0xc0 | par]) + p + path
         if mutate == "control":
             b = bytearray(control); b[rng.randrange(1, len(b))] ^= 1; control = bytes(b)
+        if kind == "p2tr-weight" and isinstance(annex, str) and annex.startswith("auto"):
+            # size the annex so that the serialized witness is exactly 50*wn + delta bytes (budget = that + 50, cost = 50*(wn+1))
+            delta = int(annex[4:] or "0")
+            base = wit_size([bytes(64 if ht == 0 else 65), script, control])
+            need = 50 * wn + delta - base
+            L = need - 1 if 2 <= need <= 253 else need - 3
+            annex = (b"\x50" + bytes(L - 1)) if L >= 1 and (need - 1 < 253 or L >= 253) else None
         lh = tagged("TapLeaf", bytes([0xc0]) + cs(len(script)) + script)
         spent = others_spent(amount if mutate != "amount" else amount + 1)
         def ssig(sk_, codesep=0xffffffff):
@@ -280,7 +292,7 @@ def build(rng, kind, nin=1, pos=0, ht=1, mutate=None, annex=None, enc=None, wn=3
         if nin != 1:
             finding = "multi-input-taproot"
         if bip341_digest(tx, pos, ht, spent, 1, annex=annex, leaf_hash=lh) is None: valid = False
-        if kind == "p2tr-cs-unexec": items = [ssig(lk[0][0])]
+        if kind in ("p2tr-cs-unexec", "p2tr-path"): items = [ssig(lk[0][0])]
         elif kind == "p2tr-weight": items = [ssig(lk[0][0])]
         elif kind == "p2tr-keytype":
             items = [b"\x01"]; needs_off |= F_DUP                  # any non-empty signature passes for an unknown key type
